@@ -1,0 +1,122 @@
+//go:build verif
+// +build verif
+
+// Test-only driver used by the verification harness in /verif (build tag "verif"; not compiled otherwise).
+// It runs REAL functions of package main (flagSet, the worker functions, the mirror functions) on
+// inputs supplied through a case file and writes what they produce to a result file:
+//
+//	VERIF_IN=<cases.jsonl> VERIF_OUT=<results.jsonl> vflow.test -test.run TestVerifDriver
+package main
+
+import (
+	"bufio"
+	"encoding/json"
+	"flag"
+	"io/ioutil"
+	"log"
+	"os"
+	"path/filepath"
+	"reflect"
+	"strings"
+	"testing"
+)
+
+type verifCase struct {
+	Cmd  string            `json:"cmd"`
+	Env  map[string]string `json:"env"`
+	File *string           `json:"file"`
+	Args []string          `json:"args"`
+}
+
+func TestVerifDriver(t *testing.T) {
+	in, out := os.Getenv("VERIF_IN"), os.Getenv("VERIF_OUT")
+	if in == "" || out == "" {
+		t.Skip("VERIF_IN / VERIF_OUT not set")
+	}
+	fi, err := os.Open(in)
+	if err != nil {
+		t.Fatal(err)
+	}
+	defer fi.Close()
+	fo, err := os.Create(out)
+	if err != nil {
+		t.Fatal(err)
+	}
+	defer fo.Close()
+	w := bufio.NewWriter(fo)
+	defer w.Flush()
+	sc := bufio.NewScanner(fi)
+	sc.Buffer(make([]byte, 1<<20), 1<<26)
+	for sc.Scan() {
+		var c verifCase
+		if err := json.Unmarshal(sc.Bytes(), &c); err != nil {
+			t.Fatal(err)
+		}
+		var res interface{}
+		switch c.Cmd {
+		case "options":
+			res = verifOptions(c)
+		default:
+			res = verifDispatch(c.Cmd, sc.Bytes())
+		}
+		b, _ := json.Marshal(res)
+		w.Write(b)
+		w.WriteByte('\n')
+	}
+}
+
+// verifOptions runs the real flagSet with exactly the given environment, configuration file and command line
+func verifOptions(c verifCase) map[string]string {
+	for _, kv := range os.Environ() {
+		if strings.HasPrefix(kv, "VFLOW_") {
+			os.Unsetenv(strings.SplitN(kv, "=", 2)[0])
+		}
+	}
+	for k, v := range c.Env {
+		os.Setenv(k, v)
+	}
+	defer func() {
+		for k := range c.Env {
+			os.Unsetenv(k)
+		}
+	}()
+	dir, _ := ioutil.TempDir("", "verif-options")
+	defer os.RemoveAll(dir)
+	cfg := filepath.Join(dir, "absent", "vflow.conf")
+	if c.File != nil {
+		cfg = filepath.Join(dir, "vflow.conf")
+		ioutil.WriteFile(cfg, []byte(*c.File), 0644)
+	}
+	oldArgs, oldCL := os.Args, flag.CommandLine
+	defer func() { os.Args, flag.CommandLine = oldArgs, oldCL }()
+	os.Args = append([]string{"vflow", "-config", cfg}, c.Args...)
+	flag.CommandLine = flag.NewFlagSet("vflow", flag.ContinueOnError)
+	flag.CommandLine.SetOutput(ioutil.Discard)
+	o := NewOptions()
+	o.Logger = log.New(ioutil.Discard, "", 0)
+	o.flagSet()
+	res := map[string]string{}
+	v := reflect.ValueOf(*o)
+	for i := 0; i < v.NumField(); i++ {
+		f := v.Field(i)
+		switch f.Kind() {
+		case reflect.String, reflect.Int, reflect.Bool:
+			res[v.Type().Field(i).Name] = strings.TrimSpace(strings.Trim(jsonString(f), `"`))
+		}
+	}
+	return res
+}
+
+func jsonString(f reflect.Value) string {
+	switch f.Kind() {
+	case reflect.String:
+		return f.String()
+	case reflect.Int:
+		b, _ := json.Marshal(f.Int())
+		return string(b)
+	case reflect.Bool:
+		b, _ := json.Marshal(f.Bool())
+		return string(b)
+	}
+	return ""
+}
